@@ -315,8 +315,8 @@ class C17(Prop):
                     if st.get("void"):
                         # the queue let a second consumer in: the property's precondition (single consumer) no longer holds
                         sim.stats["void_second_consumer_accepted"] += 1
-                        from sim.loop import SimAbort
-                        raise SimAbort()
+                        sim.abort = True  # (the loop stops at its next iteration; nothing of this run is judged)
+                        return
             elif kind == "cancel_recv":
                 c = st["consumer"]
                 if c is not None and not c.done():
@@ -367,6 +367,9 @@ class C17(Prop):
             await done
 
         outcome = sim.run(main)
+        if st.get("void"):
+            sim.violation = None  # the single-consumer precondition was given up by the queue itself: unjudged
+            return
         if sim.violation is not None or sim.harness_errors:
             return
         if outcome == "deadlock":
